@@ -51,10 +51,16 @@ class Canary:
         return self.token() + self.rng.choice(["", "", "", "", "", "/s", "?q", "#h", "%25", "%", " sp", "é", ";s", "+p", "&a=b", "=e", ",c", ".p", "~t", "'a", ":c", "@a", "/../x"])
 
     def integer(self) -> int:
-        return 100_000 + 7 * self._next()
+        n = self._next()
+        if self.rng.random() < 0.04:
+            return 0  # falsy, and a value like any other
+        return 100_000 + 7 * n
 
     def number(self) -> float:
-        return float(200_000 + 3 * self._next()) + 0.5
+        n = self._next()
+        if self.rng.random() < 0.04:
+            return 0.0
+        return float(200_000 + 3 * n) + 0.5
 
     def boolean(self) -> bool:
         self._next()
